@@ -12,7 +12,7 @@ for N in 1; do
   t=$(make check 2>&1 | grep -E '^# (PASS|FAIL|TOTAL)' | tr -d ' \n')
   timeout 600 sh "$S/run.sh" > "$WT/SEED/confirm-$N-patched.log" 2>&1; p=$?
   git checkout -- . >/dev/null 2>&1; make -j8 >/dev/null 2>&1
-  M=$((N+7))
+  M=8; while [ -e "$V/seeded/$P-$M" ]; do M=$((M+1)); done
   echo "$P/$N: demo-clean-exit=$c make=$mk tests=$t demo-patched-exit=$p"
   if [ $c = 0 ] && [ $mk = 0 ] && [ $p != 0 ] && echo "$t" | grep -q 'PASS:216#FAIL:0'; then
     D="$V/seeded/$P-$M"; mkdir -p "$D"; cp -r "$S"/* "$D"/
